@@ -8,6 +8,11 @@ import (
 
 	"verif/seq/fw"
 	"verif/seq/props/c04"
+	"verif/seq/props/c15"
+	"verif/seq/props/c16"
+	"verif/seq/props/c17"
+	"verif/seq/props/c18"
+	"verif/seq/props/c19"
 )
 
 type entry struct {
@@ -17,6 +22,11 @@ type entry struct {
 
 var table = map[string]entry{
 	"C04": {"exploration", c04.Run},
+	"C15": {"exploration", c15.Run},
+	"C16": {"exploration", c16.Run},
+	"C17": {"exploration", c17.Run},
+	"C18": {"exploration", c18.Run},
+	"C19": {"exploration", c19.Run},
 }
 
 func main() {
